@@ -68,9 +68,6 @@ func (s *solo) macroEmbargo() bool {
 	}
 	h := imps[s.rng.Intn(len(imps))]
 	lh := locs[s.rng.Intn(len(locs))]
-	if !s.settleBoot(h) {
-		return false
-	}
 	kind := wEchoParam
 	if s.rng.Chance(1, 4) {
 		kind = wPromiseLoop
